@@ -745,3 +745,30 @@ func specAccept(n []byte, i int) byte {
 //@   requires [nonce] len(nonce) == 24
 //@   ensures  [iff]   result == (len(accept) == 28 && forall(0, 28, func(k int) bool { return accept[k] == specAccept(nonce, k) }))
 //@   assigns nothing
+
+// Frame constructors (C01, C08): final, unmasked, the given payload, the right opcode.
+//@ func NewTextFrame
+//@   props C01 C08
+//@   ensures [f] result.Header.Fin && result.Header.OpCode == OpText && result.Header.Rsv == 0 && !result.Header.Masked && result.Header.Length == int64(len(p)) && sameSlice(result.Payload, p)
+//@   assigns nothing
+
+//@ func NewBinaryFrame
+//@   props C01 C08
+//@   ensures [f] result.Header.Fin && result.Header.OpCode == OpBinary && result.Header.Rsv == 0 && !result.Header.Masked && result.Header.Length == int64(len(p)) && sameSlice(result.Payload, p)
+//@   assigns nothing
+
+//@ func NewPingFrame
+//@   props C01 C08
+//@   ensures [f] result.Header.Fin && result.Header.OpCode == OpPing && result.Header.Rsv == 0 && !result.Header.Masked && result.Header.Length == int64(len(p)) && sameSlice(result.Payload, p)
+//@   assigns nothing
+
+//@ func NewPongFrame
+//@   props C01 C08
+//@   ensures [f] result.Header.Fin && result.Header.OpCode == OpPong && result.Header.Rsv == 0 && !result.Header.Masked && result.Header.Length == int64(len(p)) && sameSlice(result.Payload, p)
+//@   assigns nothing
+
+//@ func NewCloseFrame
+//@   props C01 C08
+//@   ensures [f] result.Header.Fin && result.Header.OpCode == OpClose && result.Header.Rsv == 0 && !result.Header.Masked && result.Header.Length == int64(len(p)) && sameSlice(result.Payload, p)
+//@   assigns nothing
+
